@@ -621,6 +621,15 @@ Definition switch_plain_globalb (module : list string) (helpers : list (string *
 Definition modelled_add_loops : list string :=
   ["for member in all_members"; "for t in targets"; "for t in targets"; "for t in targets"].
 Definition modelled_hint_loops : list string := ["targets"].
+(* _get_members: the cache has ONE entry per class, written under the class's own name only (current_class), starting from a copy
+   of its own list, extended by the ancestors' and rebuilt as a fresh list - so no class's entry is written while another class is
+   asked, and no two entries share a list *)
+Definition modelled_cache_writes : list string :=
+  ["cls.__all_members_ = {}";
+   "cls.__all_members_[current_class] = copy.copy(cls.member_data_items_)";
+   "cls.__all_members_[current_class] += c.member_data_items_";
+   "cls.__all_members_[current_class] = list(set(cls.__all_members_[current_class]))"].
+Definition cache_writes_okb (found : list string) : bool := strl_eqb found modelled_cache_writes.
 (* _check_arg_list: the permitted names are collected in a LIST of the members' names and a keyword is tested by membership in that
    list (member_names of the model) - not against a joined string or by prefix *)
 Definition modelled_arg_check : list string :=
@@ -697,7 +706,7 @@ Definition set_eqb (a b : list string) : bool := subset a b && subset b a.
 
 (* read-only helpers leave nothing on the instance.  add() recognises "an equal child is already present" with __eq__, which compares
    the instance dictionaries; the model's equality compares the member fields.  The two agree as long as methods that are read-only by
-   their name (__str__, __repr__, summary, get_* / is_* / has_* ...) write nothing on self (translators/tr_helpers.py lists, per
+   their name (__str__, __repr__, summary, get_* / is_* / has_* ...) write nothing on self (translators/tr_readonly.py lists, per
    method, the writes it finds).  The ones below exist in the code under test today and are reported as a known finding; anything
    else breaks the obligation. *)
 Definition known_reader_writes : list string :=
